@@ -309,6 +309,17 @@ def check_merge(ctx):
             if f"labels[{iv}]" in base:
                 high_side = sd == "high"
         oks = fv.dominates(sh, ms)
+    # the period is a cell count: positions must still be in cell coordinates inside the loop
+    fe = FrameEval(m, fi)
+    try:
+        pframe = fe.name("positions", fv.node_of(lp))
+    except Exception:
+        pframe = None
+    if pframe is not None and pframe != "mixed":
+        ctx.decide(pframe == CELL, "FRAME", site + ":period", (fi, shifts[0][0]) if shifts else (fi, lp),
+                   "positions are in cell coordinates while clusters are merged, so one period is grid.shape[ax]",
+                   f"positions are in {pframe} coordinates inside the periodic merge loop, but the upper cluster is shifted by the cell count grid.shape[ax]: "
+                   "on grids whose spacing is not 1 the shift is not one period and the merged centre is wrong")
     ctx.decide(bool(oks and high_side), "MERGE", site + ":shift", (fi, shifts[0][0]) if shifts else (fi, lp),
                "the cluster on the upper boundary is shifted down by exactly one period (grid.shape[ax] cells, positions are in cell units) before averaging; nothing else modifies positions inside the loop",
                "inside the periodic merge loop positions are modified other than by the single shift `pos_upper[ax] -= grid.shape[ax]` before the mean "
@@ -333,6 +344,32 @@ def check_merge(ctx):
     ctx.decide(bool(okv and okp and len(rl) == 1), "MERGE", site + ":update", (fi, list(vstores.values())[0]) if vstores else (fi, lp),
                "both clusters get the summed volume and the merged position; one label is replaced by the other",
                "after a merge the two clusters do not both carry V₁ + V₂ and the merged position, with one label replaced by the other")
+    # ---- boundary enumeration: along every other axis a the full index range of *that* axis
+    import re as _re
+
+    ranges = []
+    for n in ast.walk(lp):
+        if isinstance(n, ast.Call) and dotted(n.func).split(".")[-1] in ("arange", "range") and len(n.args) == 1:
+            mm = _re.fullmatch(r"grid\.shape\[(\w+)\]", U(n.args[0]))
+            if mm:
+                ranges.append((n, mm.group(1)))
+    axis_vars = set()
+    for n in ast.walk(lp):
+        tgt = it = None
+        if isinstance(n, ast.For) and n is not lp:
+            tgt, it = n.target, n.iter
+        elif isinstance(n, ast.comprehension):
+            tgt, it = n.target, n.iter
+        if tgt is not None and isinstance(tgt, ast.Name) and U(it) in ("range(grid.num_axes)", "range(len(grid.shape))", "range(grid.dim)", "range(mask.data.ndim)", "range(labels.ndim)"):
+            axis_vars.add(tgt.id)
+    if not ranges or not axis_vars:
+        ctx.undecided("MERGE", site + ":boundary", (fi, lp), "enumeration of the boundary points not recognised")
+    else:
+        badr = [(n, k) for n, k in ranges if k not in axis_vars]
+        ctx.decide(not badr and len(ranges) >= 2, "MERGE", site + ":boundary", (fi, (badr or ranges)[0][0]),
+                   "the two boundary faces are enumerated over the full index range of every transverse axis (its own length)",
+                   f"`{U(badr[0][0]) if badr else ''}` enumerates a transverse axis with the length of axis `{badr[0][1] if badr else ''}`: on grids whose axes have different "
+                   "lengths parts of the periodic boundary are never examined (clusters touching there are not merged and are reported twice) or the index runs out of bounds")
     # ---- merge condition: both labels non-zero and different
     conds = [s for s in ast.walk(lp) if isinstance(s, ast.If) and any(x is ms for x in ast.walk(s))]
     okc = False
